@@ -189,6 +189,16 @@ func texttraceMain(args []string) int {
 			}
 		}
 	}
+	// (1b') a lone binary byte at EVERY position of a 600-byte text (detectors consulted before text/plain see,
+	// and must not alter, the same bytes)
+	for _, v := range []byte{0x00, 0x1A} {
+		for p := 0; p < 600; p++ {
+			in := append([]byte{}, long[:600]...)
+			in[p] = v
+			binCases++
+			emit(in, 0, "lone-binary-byte")
+		}
+	}
 	// (1c) long ASCII bodies whose only non-ASCII bytes come late (C11 beyond any sampling window)
 	for _, grp := range [][]byte{{0xE9}, {0x85}, {0x9F}, {0xC3, 0xA9}, {0xC3, 'x'}, {0xEF, 0xBF, 0xBD}, {0xF0, 0x9F, 0x98, 0x80}, {0xF0, 0x9F, 0x98}, {0xFF}} {
 		for _, p := range []int{1023, 1024, 4095, 4096, 8192, 11000} {
